@@ -1,10 +1,10 @@
 PLAN['C03'] = dict(
     level='exploration',
-    units=std_units('C03', [('asan', 'sdcz', 1500, 50000), ('asan-i64', 'dz', 400, 12000)], chunk=100),
+    units=std_units('C03', [('asan', 'sdcz', 1500, 250000), ('asan-i64', 'dz', 400, 50000)], chunk=100),
     rule='structure predicate (as the consumers ?gstrs/sp_?trsv/?PivotGrowth/?QuerySpace read SCformat/NCformat) on every factorization returned by ?gstrf (square, tall), ?gssv (NC/NR), ?gssvx (malloc / caller workspace, Equil) and ?gsisx (ILU option lattice); '
          'non-trivial = a multi-column supernode is present; distinct = hash(pattern, route, outcome)',
     counter_names=['multi-column supernodes seen', 'supernodes seen', 'max in-flight expansions in one factorization'],
-    min_nontrivial={'quick': 500, 'thorough': 5000},
+    min_nontrivial={'quick': 500, 'thorough': 100000},
     require_tags={'quick': ['route=gstrf', 'route=gssv', 'route=gssvx', 'route=gsisx', 'tall', 'mem=workspace', 'maxsnode=4', 'ilu-U-repeats-row', 'growthy', 'expansions=3']},
     assumptions=['the predicate is transcribed from how the consuming routines index the structures', 'ASan witnesses that every index read by the predicate lies inside the allocation'],
 )
